@@ -204,6 +204,9 @@ func runC07Read(ctx *core.Ctx, r *core.Rng) {
 	case x < 42 && ctx.Tier == "thorough":
 		sz = fmts.Large // offsets sampled, never enumerated
 	}
+	if r.Chance(0.0006) || ctx.Tier == "thorough" && r.Chance(0.004) {
+		sz = fmts.Huge // a line beyond 1 MiB; offsets sampled
+	}
 	w, ref, ok := wellFormed(ctx, r, f, sz)
 	ctx.EvS("C07.read " + f.Name)
 	ctx.EvB(w)
@@ -212,16 +215,20 @@ func runC07Read(ctx *core.Ctx, r *core.Rng) {
 	}
 	// Offsets: every one for tiny/small; for medium every one in thorough, stratified in quick.
 	var offs []int
-	if sz == fmts.Large {
+	if sz == fmts.Large || sz == fmts.Huge {
 		mark := map[int]bool{0: true, len(w): true}
-		for _, b := range []int{4096, 8192, 65536, 131072} {
+		for _, b := range []int{4096, 8192, 65536, 131072, 1 << 20, 1<<20 + 4096} {
 			for d := -2; d <= 2; d++ {
 				if b+d >= 0 && b+d <= len(w) {
 					mark[b+d] = true
 				}
 			}
 		}
-		for i := 0; i < 120; i++ {
+		nrand := 120
+		if sz == fmts.Huge {
+			nrand = 40
+		}
+		for i := 0; i < nrand; i++ {
 			k := r.Intn(len(w) + 1)
 			mark[k] = true
 			if nl := bytes.IndexByte(w[k:], '\n'); nl >= 0 { // and the next line boundary
@@ -278,6 +285,13 @@ func runC07Read(ctx *core.Ctx, r *core.Rng) {
 	// Three delivery plans for the bytes before the fault; one is picked per execution.
 	style := core.Pick(r, planStyles)
 	plans := []sim.Plan{{Tail: 0}, {Tail: 1}, genPlan(r, style, w, f.Special)}
+	if len(w) > 50000 {
+		// tiny reads make bufio.Scanner rescan its whole buffer per read: quadratic on long lines
+		if style == "one" || style == "uniform" {
+			style = "bigbuf"
+		}
+		plans = []sim.Plan{{Tail: 0}, {Tail: 4096}, genPlan(r, style, w, f.Special)}
+	}
 	ctx.Seen(core.HashBytes(w) ^ core.HashString(f.Name+"/read/"+style))
 	ctx.Stats.Inc("c07_read_inputs/" + f.Name)
 	sampled := false
@@ -408,7 +422,11 @@ func runC07Write(ctx *core.Ctx, r *core.Rng) {
 
 func runC07File(ctx *core.Ctx, r *core.Rng) {
 	f := core.Pick(r, fmts.All)
-	w, ref, ok := wellFormed(ctx, r, f, core.Pick(r, []fmts.Size{fmts.Small, fmts.Multi}))
+	fsz := core.Pick(r, []fmts.Size{fmts.Small, fmts.Multi})
+	if r.Chance(0.04) {
+		fsz = fmts.Medium // several deflate blocks' worth; cuts are strided
+	}
+	w, ref, ok := wellFormed(ctx, r, f, fsz)
 	ctx.EvS("C07.file " + f.Name)
 	ctx.EvB(w)
 	if !ok {
